@@ -197,6 +197,14 @@ func (tb *TB) system(in ssa.Instruction) *dsys {
 	fn := in.Parent()
 	for _, a := range tb.FactsAt(in.Block()) {
 		s.addAtom(a)
+		// strings.HasPrefix(x, "const") holds: x is at least that long
+		if a.Kind == "call" && a.Pol && a.Call != nil && (a.Call.S == "strings.HasPrefix" || a.Call.S == "strings.HasSuffix" || a.Call.S == "bytes.HasPrefix") && len(a.Call.Args) == 2 {
+			if c := a.Call.Args[1]; c.Op == "Const" && strings.HasPrefix(c.S, "\"") {
+				if lit, err := strconv.Unquote(c.S); err == nil {
+					s.le("0", "len("+a.Call.Args[0].Key()+")", -int64(len(lit)))
+				}
+			}
+		}
 	}
 	// axioms about values of the function
 	seenLen := map[string]bool{}
